@@ -161,7 +161,7 @@ def check_interleaved(ctx, ast, text, runs, cls, *, env=None, keys_prefix="~"):
     return True
 
 
-def check_after_incomplete_passes(ctx, ast, text, doc, extra, cls, *, env=None, keys_prefix="~"):
+def check_after_incomplete_passes(ctx, ast, text, doc, extra, cls, *, env=None, keys_prefix="~", pool=None):
     """ONE compiled query, ONE document object and ONE (non-empty) filter-context object across several calls: a pass
     left incomplete (match(), an abandoned iterator, a consumer that stops after one result), then the document
     updated in place, then full evaluations - which must give what the model gives for the document as it is NOW."""
@@ -196,7 +196,7 @@ def check_after_incomplete_passes(ctx, ast, text, doc, extra, cls, *, env=None, 
         except Exception:  # noqa: BLE001
             pass
         # the caller updates the document in place (values the filters read, and the shape)
-        _mutate(r, d)
+        _mutate(r, d, pool)
         try:
             model = ref.eval_query(ast, d, extra=extra, keys_prefix=keys_prefix)
         except ref_regex.Unsupported:
@@ -217,8 +217,10 @@ def check_after_incomplete_passes(ctx, ast, text, doc, extra, cls, *, env=None, 
     return True
 
 
-def _mutate(r, d):
-    """Change a few leaves and one container of d in place (types of leaves change too)."""
+def _mutate(r, d, pool=None):
+    """Change a few leaves and one container of d in place (types of leaves change too); never creates sharing."""
+    import copy
+
     conts = []
     stack = [d]
     while stack:
@@ -229,18 +231,19 @@ def _mutate(r, d):
         elif isinstance(x, list):
             conts.append(x)
             stack.extend(x)
-    pool = [0, 1, 2, 3, 10, "a", "b", "ab", "v1", None, True, False, 2.5, [], {}, [1], {"a": 1}]
+    pool = pool or [0, 1, 2, 3, 10, "a", "b", "ab", "v1", None, True, False, 2.5, [], {}, [1], {"a": 1}]
+    pick = lambda: copy.deepcopy(r.choice(pool))  # noqa: E731
     for _ in range(r.randint(1, 4)):
         c = r.choice(conts)
         if isinstance(c, dict) and c:
-            c[r.choice(list(c))] = r.choice(pool) if r.random() < 0.8 else c.get(r.choice(list(c)))
+            c[r.choice(list(c))] = pick()
         elif isinstance(c, list) and c:
-            c[r.randrange(len(c))] = r.choice(pool)
+            c[r.randrange(len(c))] = pick()
         elif isinstance(c, list):
-            c.append(r.choice(pool))
+            c.append(pick())
         else:
-            c["a"] = r.choice(pool)
-    if r.random() < 0.3 and isinstance(d, list) and d:
+            c["a"] = pick()
+    if r.random() < 0.3 and isinstance(d, list) and len(d) > 1:
         d.pop()
 
 
